@@ -1,10 +1,573 @@
 /-
-  MdModel.CacheFs — placeholder (model not written yet).
+  MdModel.CacheFs — model of the on-disk symbol cache protocol of `HttpSymbolSupplier`
+  (breakpad-symbols/src/http.rs):
+
+    * `create_cache_file` / `commit_cache_file`   (http.rs:139-178)
+    * `fetch_symbol_file`                          (http.rs:262-327)  — GET, temp file in the tmp dir,
+      `SymbolFile::parse_async` with the tee callback, commit only after the parse returned `Ok`
+    * `locate_symbols`                             (http.rs:460-524)  — local paths and cache first,
+      only `NotFound` cascades, the servers in order, any fetch error moves on to the next server
+
+  What is abstract (a parameter, `ParserModel`): the symbol-file parser. The model needs from it
+  only (a) the whole-buffer parse `parse : Bytes → Option Sym` (`SymbolFile::from_bytes/from_file`),
+  (b) the streaming parse as a state machine fed one network chunk at a time which reports the bytes
+  it handed to the tee callback (`feed`, `finish`), and (c) three laws that are theorems of the
+  parser model of C09/C10, recorded here as named hypotheses (`ParserLaws`).
+
+  What is abstract (events): the network (`status`, `chunk`, `eof`, `netError`), the point where the
+  caller abandons the future (`drop`), and i/o failures of the caching side that the state does not
+  determine (the Booleans carried by the events: an unwritable tmp/cache directory, a full disk …).
+
+  File-system semantics assumed (trusted base): a `NamedTempFile` *is* its handle — the file exists in
+  the tmp directory exactly as long as the handle is live (it is removed when the handle is dropped);
+  `persist_noclobber` moves the temp file to the target atomically and fails when the name is taken;
+  `remove_file` fails on a directory; `Path::exists` follows symlinks.
 -/
 import MdModel.Prelude
 namespace MdModel.CacheFs
+open MdModel
 
-/-- line-protocol entry point of this model (engine(s): cache) -/
-def handle (_engine : String) (_args : List String) : String := "bad-op"
+abbrev Bytes := List UInt8
+/-- the request URL as serialised by `Url::to_string` (ASCII, percent-encoded) -/
+abbrev Url := Bytes
+/-- a path relative to the cache directory (`FileLookup::cache_rel`) -/
+abbrev Path := String
+
+/-- What can sit at a name below the cache directory. -/
+inductive Node where
+  | file (b : Bytes)   -- a regular file
+  | dir                -- a directory: `remove_file` fails on it
+  | special            -- exists, not a regular file, removable (socket, fifo)
+  | dangling           -- a symlink to nothing: `exists()` is false, yet the name is taken
+  deriving DecidableEq, Repr
+
+abbrev Cache := Path → Option Node
+
+def Cache.set (c : Cache) (p : Path) (n : Option Node) : Cache :=
+  fun q => if q = p then n else c q
+
+/-- `"INFO URL "` -/
+def infoUrlTag : Bytes := [73, 78, 70, 79, 32, 85, 82, 76, 32]
+
+/-- `format!("INFO URL {url}\n")` (http.rs:165) -/
+def trailer (u : Url) : Bytes := infoUrlTag ++ u ++ [10]
+
+/-- body bytes received so far; the chunk list is kept newest-first -/
+def bodyOf : List Bytes → Bytes
+  | [] => []
+  | b :: older => bodyOf older ++ b
+
+/-! ### The parser, abstracted -/
+
+structure ParserModel where
+  /-- the symbol table (`SymbolFile`) -/
+  Sym : Type
+  /-- `SymbolFile::from_bytes` / `from_file`: the whole buffer; `none` = `Err` -/
+  parse : Bytes → Option Sym
+  /-- `symbol_file.url = Some(url)` -/
+  setUrl : Sym → Url → Sym
+  /-- every line of the input (an unterminated last one included) is shorter than
+      `MAX_BUFFER_CAPACITY / 2` = 80 KiB: the domain on which C10 proves chunk independence (what the
+      real parser does with a 80–160 KiB line depends on where it sits in the window) -/
+  shortLines : Bytes → Prop
+  /-- state of `parse_async`'s loop between two `response.chunk().await` -/
+  σ : Type
+  init : σ
+  /-- one network chunk: `none` = the parser returned `Err` (the callback is not invoked for the
+      failing `parse_more`); `some (s, cb)` = it went back to waiting, having passed `cb` to the
+      tee callback -/
+  feed : σ → Bytes → Option (σ × Bytes)
+  /-- `response.chunk()` returned `None` (end of the response): `none` = `Err`,
+      `some (cb, t)` = `Ok(t)` after passing `cb` to the callback -/
+  finish : σ → Option (Bytes × Sym)
+
+namespace ParserModel
+variable (P : ParserModel)
+
+/-- state and callback bytes after the chunks `rx` (newest first); `none` once the parser failed -/
+def runRev : List Bytes → Option (P.σ × Bytes)
+  | [] => some (P.init, [])
+  | b :: older =>
+    match runRev older with
+    | none => none
+    | some (s, cb) =>
+      match P.feed s b with
+      | none => none
+      | some (s', cb') => some (s', cb ++ cb')
+
+/-- the streaming parse of a complete response: callback bytes and table -/
+def stream (rx : List Bytes) : Option (Bytes × P.Sym) :=
+  match P.runRev rx with
+  | none => none
+  | some (s, cb) =>
+    match P.finish s with
+    | none => none
+    | some (fin, t) => some (cb ++ fin, t)
+
+/-- `parseOk`: the whole body parses -/
+def parseOk (b : Bytes) : Bool := (P.parse b).isSome
+
+end ParserModel
+
+/-- bytes `Url::to_string` never produces (it percent-encodes them); the `INFO URL` line is cut
+    at `\r`/`\n` and its leading blanks are skipped when it is read back -/
+def UrlClean (u : Url) : Prop := ∀ b ∈ u, b ≠ 10 ∧ b ≠ 13 ∧ b ≠ 32 ∧ b ≠ 9
+
+/-- the body ends in a line feed -/
+def EndsNl (b : Bytes) : Prop := ∃ pre, b = pre ++ [10]
+
+/-- Facts about the parser used by the theorems of C16. They are theorems about the parser model
+    of C09/C10 (proved there, assumed here — see the trusted base):
+    * `callback_prefix`  (C10.7) the concatenated callback arguments are a prefix of what the
+      reader delivered, and all of it when the result is `Ok`;
+    * `chunk_independent` (C10.6, same hypothesis as there: all lines shorter than 80 KiB) a
+      successful streaming parse yields the table of the whole-buffer parse of the same bytes;
+    * `info_url_trailer` (DESIGN §6.C16) appending the `INFO URL` line to a body that parses AND
+      ends in a line feed keeps the table and sets the URL. (Without "ends in a line feed" this is
+      false for the real parser: a body whose unterminated last line is longer than the 160 KiB
+      window parses `Ok` — over-long-line recovery discards it — and an appended note would be
+      glued to that line and discarded with it. That was a genuine defect found by this check and
+      repaired in /repo by 4002240: such a body is no longer committed, see `updNl`.) -/
+structure ParserLaws (P : ParserModel) : Prop where
+  callback_prefix : ∀ rx s cb, P.runRev rx = some (s, cb) →
+    (∃ rest, cb ++ rest = bodyOf rx) ∧ (∀ fin t, P.finish s = some (fin, t) → cb ++ fin = bodyOf rx)
+  chunk_independent : ∀ rx cb t, P.shortLines (bodyOf rx) → P.stream rx = some (cb, t) →
+    P.parse (bodyOf rx) = some t
+  info_url_trailer : ∀ body t u, UrlClean u → EndsNl body → P.parse body = some t →
+    P.parse (body ++ trailer u) = some (P.setUrl t u)
+
+/-! ### One `locate_symbols` call as a state machine -/
+
+/-- the static part of a call: which module (→ cache path, request URLs), which local files -/
+structure Req where
+  /-- `cache.join(sym_lookup.cache_rel)` -/
+  path : Path
+  /-- the module's file in one of the local symbol paths (searched before the cache), if any -/
+  localHit : Option Bytes
+  /-- the request URL at each configured server, in order -/
+  urls : List Url
+
+inductive Result where
+  /-- `SimpleSymbolSupplier` found a file with these bytes: `SymbolFile::from_file` on them
+      (`Ok` or `ParseError`, never `NotFound` — so nothing cascades) -/
+  | localFile (b : Bytes)
+  /-- stream-parsed `Ok` from the response whose chunks were `rx` (newest first);
+      `symbol_file.url = Some(u)` -/
+  | downloaded (rx : List Bytes) (u : Url)
+  | notFound
+  deriving DecidableEq, Repr
+
+/-- extra i/o outcomes of the last step (`true` = the operation succeeds if the state allows it) -/
+structure CommitIo where
+  writeOk : Bool     -- callback writes during end-of-input handling
+  trailerOk : Bool   -- `temp.write_all(cache_metadata)`
+  removeOk : Bool    -- `fs::remove_file(final_path)`
+  persistOk : Bool   -- `temp.persist_noclobber(final_path)`
+  deriving DecidableEq, Repr
+
+inductive Ev where
+  /-- first poll: local symbol paths and the cache directory (no suspension point in there) -/
+  | lookup
+  /-- response head; `createOk` = `create_dir_all(parent)` and `NamedTempFile::new_in(tmp)` succeed -/
+  | status (code : Nat) (createOk : Bool)
+  /-- `response.chunk()` yields bytes; `writeOk` = the tee's `write_all` succeeds -/
+  | chunk (b : Bytes) (writeOk : Bool)
+  /-- `response.chunk()` yields `None` -/
+  | eof (io : CommitIo)
+  /-- `send()` or `response.chunk()` yields an error (refused, reset, body shorter than announced) -/
+  | netError
+  /-- the caller drops the future here -/
+  | drop
+  deriving DecidableEq, Repr
+
+inductive Phase (P : ParserModel) where
+  | start
+  /-- `client.get(u).send().await` pending; `rest` = servers not tried yet -/
+  | awaitStatus (u : Url) (rest : List Url)
+  /-- inside `parse_async`: `temp` = contents of the live `NamedTempFile` (`none`: caching was given
+      up), `nl` = `ends_with_newline` (the last byte the tee callback has seen is `\n`),
+      `ps` = parser state, `rx` = chunks received (ghost) -/
+  | streaming (u : Url) (rest : List Url) (temp : Option Bytes) (nl : Bool) (ps : P.σ) (rx : List Bytes)
+  | done (r : Result)
+  | dropped
+
+/-- contents of the temp file this call holds in the tmp directory -/
+def Phase.temp {P : ParserModel} : Phase P → Option Bytes
+  | .streaming _ _ t _ _ _ => t
+  | _ => none
+
+/-- `error_for_status`: client and server errors -/
+def isErrorStatus (code : Nat) : Bool := 400 ≤ code && code < 600
+
+/-- the `for url in &self.urls` loop moves on -/
+def nextUrl {P : ParserModel} : List Url → Phase P
+  | [] => .done .notFound
+  | u :: rest => .awaitStatus u rest
+
+/-- the tee callback (http.rs:301-309): append, or give up on caching when the write fails -/
+def tee (temp : Option Bytes) (cb : Bytes) (writeOk : Bool) : Option Bytes :=
+  match temp with
+  | none => none
+  | some t => if writeOk then some (t ++ cb) else none
+
+/-- `ends_with_newline` after the tee callback has been handed `cb` (http.rs: updated before the
+    write attempt, whether or not caching has been given up) -/
+def updNl (nl : Bool) (cb : Bytes) : Bool :=
+  match cb.getLast? with
+  | some b => b == 10
+  | none => nl
+
+/-- `commit_cache_file` (http.rs:157-178) on a temp file with contents `t`. Every failure returns
+    early and drops `temp` (the file in the tmp directory disappears with it). -/
+def commit (c : Cache) (p : Path) (u : Url) (t : Bytes) (io : CommitIo) : Cache :=
+  if !io.trailerOk then c else
+  let content := t ++ trailer u
+  match c p with
+  | none => if io.persistOk then c.set p (some (.file content)) else c
+  | some .dangling => c          -- `exists()` is false; `persist_noclobber` finds the name taken
+  | some .dir => c               -- `remove_file` fails (EISDIR)
+  | some _ =>                    -- regular or special file: removed, then the new file is moved in
+    if !io.removeOk then c
+    else if io.persistOk then c.set p (some (.file content)) else c.set p none
+
+/-- `SimpleSymbolSupplier::locate_file`: the local symbol paths in order, the cache directory last;
+    only a regular file counts (`fs::metadata(..).is_file()`) -/
+def lookupLocal (c : Cache) (req : Req) : Option Bytes :=
+  match req.localHit with
+  | some b => some b
+  | none =>
+    match c req.path with
+    | some (.file b) => some b
+    | _ => none
+
+def step {P : ParserModel} (c : Cache) (req : Req) : Phase P → Ev → Cache × Phase P
+  | .start, .lookup =>
+    match lookupLocal c req with
+    | some b => (c, .done (.localFile b))
+    | none => (c, nextUrl req.urls)
+  | .start, .drop => (c, .dropped)
+  | .awaitStatus u rest, .status code createOk =>
+    if isErrorStatus code then (c, nextUrl rest)
+    else (c, .streaming u rest (if createOk then some [] else none) false P.init [])
+  | .awaitStatus _ rest, .netError => (c, nextUrl rest)
+  | .awaitStatus _ _, .drop => (c, .dropped)
+  | .streaming u rest temp nl ps rx, .chunk b writeOk =>
+    match P.feed ps b with
+    | none => (c, nextUrl rest)
+    | some (ps', cb) => (c, .streaming u rest (tee temp cb writeOk) (updNl nl cb) ps' (b :: rx))
+  | .streaming u rest temp nl ps rx, .eof io =>
+    match P.finish ps with
+    | none => (c, nextUrl rest)
+    | some (fin, _) =>
+      -- `temp.filter(|_| ends_with_newline)`: a body that does not end in `\n` is not committed
+      -- (its temp file is dropped)
+      match tee temp fin io.writeOk with
+      | none => (c, .done (.downloaded rx u))
+      | some t =>
+        if updNl nl fin then (commit c req.path u t io, .done (.downloaded rx u))
+        else (c, .done (.downloaded rx u))
+  | .streaming _ rest _ _ _ _, .netError => (c, nextUrl rest)
+  | .streaming _ _ _ _ _ _, .drop => (c, .dropped)
+  | ph, _ => (c, ph)
+
+/-- one call driven by an event list -/
+def runTask {P : ParserModel} (c : Cache) (req : Req) (ph : Phase P) : List Ev → Cache × Phase P
+  | [] => (c, ph)
+  | e :: es => let r := step c req ph e; runTask r.1 req r.2 es
+
+/-! ### Several calls sharing the cache (same process), any interleaving -/
+
+structure World (P : ParserModel) where
+  cache : Cache
+  tasks : List (Req × Phase P)
+
+def World.step {P : ParserModel} (w : World P) (i : Nat) (e : Ev) : World P :=
+  match w.tasks[i]? with
+  | none => w
+  | some (req, ph) =>
+    let r := CacheFs.step w.cache req ph e
+    { cache := r.1, tasks := w.tasks.set i (req, r.2) }
+
+def World.run {P : ParserModel} (w : World P) : List (Nat × Ev) → World P
+  | [] => w
+  | (i, e) :: es => (w.step i e).run es
+
+/-- the tmp directory: the temp files of all calls in flight -/
+def World.liveTemps {P : ParserModel} (w : World P) : List Bytes :=
+  w.tasks.filterMap fun t => t.2.temp
+
+/-! ### A concrete, lawful parser instance for the executable model
+
+  Line based like the real one: consumes up to the last `\n` of what has arrived; a line whose first
+  byte is `!` is unparseable; an empty input or an unterminated last line fails at end of input;
+  the table is the list of lines other than `INFO URL …` plus the URL of the last such line.
+  (`MdProofs.Lemmas.CacheFsToy` proves `ParserLaws Toy.model`.) -/
+namespace Toy
+
+def hasNl (l : Bytes) : Bool := l.any (· == 10)
+
+/-- the prefix up to and including the last `\n` (one pass; `consumed_cons` in
+    `MdProofs.Lemmas.CacheFsToy` gives the defining equation
+    `consumed (x :: xs) = if hasNl (x :: xs) then x :: consumed xs else []`) -/
+def consumed : Bytes → Bytes
+  | [] => []
+  | x :: xs =>
+    match consumed xs with
+    | [] => if x == 10 then [x] else []
+    | c => x :: c
+
+/-- does a line start with `!`? (`atStart`: the previous byte ended a line) -/
+def hasBadFrom : Bool → Bytes → Bool
+  | _, [] => false
+  | atStart, x :: xs => (atStart && x == 33) || hasBadFrom (x == 10) xs
+
+/-- split into lines (without their `\n`); `cur` = current line, reversed -/
+def linesAux : Bytes → Bytes → List Bytes
+  | cur, [] => if cur.isEmpty then [] else [cur.reverse]
+  | cur, x :: xs => if x == 10 then cur.reverse :: linesAux [] xs else linesAux (x :: cur) xs
+
+structure Sym where
+  recs : List Bytes
+  url : Option Url
+  deriving DecidableEq, Repr
+
+def isInfoUrl (l : Bytes) : Bool := infoUrlTag.isPrefixOf l
+
+def symOf (b : Bytes) : Sym :=
+  let ls := linesAux [] b
+  { recs := ls.filter (fun l => !isInfoUrl l),
+    url := ((ls.filter isInfoUrl).getLast?).map (fun l => l.drop 9) }
+
+def wholeOk (b : Bytes) : Bool := !b.isEmpty && consumed b == b && !hasBadFrom true b
+
+def parse (b : Bytes) : Option Sym := if wholeOk b then some (symOf b) else none
+
+structure St where
+  seen : Bytes
+
+def feed (s : St) (b : Bytes) : Option (St × Bytes) :=
+  let seen' := s.seen ++ b
+  let c' := consumed seen'
+  if hasBadFrom true c' then none else some (⟨seen'⟩, c'.drop (consumed s.seen).length)
+
+def finish (s : St) : Option (Bytes × Sym) :=
+  match parse s.seen with
+  | none => none
+  | some t => some ([], t)
+
+def model : ParserModel :=
+  { Sym := Sym, parse := parse, setUrl := fun t u => { t with url := some u },
+    shortLines := fun _ => True,
+    σ := St, init := ⟨[]⟩, feed := feed, finish := finish }
+
+end Toy
+
+/-! ### line protocol
+
+  request : `cache p:<hex path> n:<node> l:<none|hex> e:<ev,ev,…|-> d:<0|1> t:<none|hexurl;hexurl…> [t:…]`
+    node  : `none | dir | special | dangling | file:<hex>`        (what sits at the path initially)
+    ev    : `<i>L` | `<i>S<code>:<0|1>` | `<i>C<hex>:<0|1>` | `<i>E<wtrp bits>` | `<i>N` | `<i>D`   (i = task digit)
+    d:1   : additionally insert a `drop` for task 0 at every position and require a clean outcome
+  answer  : `cache:<node'> tmp:<n> r:<res;res…> req:<log;log…> second:<res> drops:<clean|dirty|->`
+    node' : as above with `file:<fnv64>:<len>`; res: `ok:<url|->` `parse-error` `notfound` `dropped` `pending`
+-/
+
+open Proto
+
+def fnv64 (b : Bytes) : UInt64 :=
+  b.foldl (fun h x => (h ^^^ x.toUInt64) * 0x100000001b3) 0xcbf29ce484222325
+
+def hex16 (n : UInt64) : String :=
+  let ds := Nat.toDigits 16 n.toNat
+  String.ofList (List.replicate (16 - ds.length) '0' ++ ds)
+
+def showBytes (b : Bytes) : String := String.ofList (b.map fun x => Char.ofNat x.toNat)
+
+def Node.render : Option Node → String
+  | none => "none"
+  | some .dir => "dir"
+  | some .special => "special"
+  | some .dangling => "dangling"
+  | some (.file b) => s!"file:{hex16 (fnv64 b)}:{b.length}"
+
+def parseNode (s : String) : Option (Option Node) :=
+  match s with
+  | "none" => some none
+  | "dir" => some (some .dir)
+  | "special" => some (some .special)
+  | "dangling" => some (some .dangling)
+  | _ =>
+    match s.splitOn ":" with
+    | ["file", h] => (unhex h).map fun b => some (.file b)
+    | _ => none
+
+def parseBool (s : String) : Option Bool :=
+  match s with
+  | "0" => some false
+  | "1" => some true
+  | _ => none
+
+def parseEv1 (s : String) : Option (Nat × Ev) :=
+  match s.toList with
+  | i :: k :: rest =>
+    if !i.isDigit then none else
+    let idx := i.toNat - '0'.toNat
+    let body := String.ofList rest
+    match k with
+    | 'L' => if rest.isEmpty then some (idx, .lookup) else none
+    | 'N' => if rest.isEmpty then some (idx, .netError) else none
+    | 'D' => if rest.isEmpty then some (idx, .drop) else none
+    | 'S' =>
+      match body.splitOn ":" with
+      | [code, ok] => do
+        let c ← code.toNat?
+        let o ← parseBool ok
+        pure (idx, .status c o)
+      | _ => none
+    | 'C' =>
+      match body.splitOn ":" with
+      | [h, ok] => do
+        let b ← unhex h
+        let o ← parseBool ok
+        pure (idx, .chunk b o)
+      | _ => none
+    | 'E' =>
+      match rest.map (fun c => parseBool (String.singleton c)) with
+      | [some w, some t, some r, some p] => some (idx, .eof ⟨w, t, r, p⟩)
+      | _ => none
+    | _ => none
+  | _ => none
+
+/-- an event token, optionally tagged `@k`: it belongs to the response of server `k` and reaches the
+    client only while the call is talking to that server (a response the client has abandoned is
+    never read any further) -/
+def parseEv (s : String) : Option (Nat × Option Nat × Ev) :=
+  match s.splitOn "@" with
+  | [e] => (parseEv1 e).map fun (i, ev) => (i, none, ev)
+  | [e, k] => do
+    let (i, ev) ← parseEv1 e
+    let k ← k.toNat?
+    pure (i, some k, ev)
+  | _ => none
+
+def parseUrls (s : String) : Option (List Url) :=
+  if s == "none" then some [] else (s.splitOn ";").mapM unhex
+
+def renderResult (r : Result) : String :=
+  match r with
+  | .localFile b =>
+    match Toy.parse b with
+    | none => "parse-error"
+    | some t => "ok:" ++ (match t.url with | none => "-" | some u => showBytes u)
+  | .downloaded _ u => "ok:" ++ showBytes u
+  | .notFound => "notfound"
+
+def renderPhase (ph : Phase Toy.model) : String :=
+  match ph with
+  | .done r => renderResult r
+  | .dropped => "dropped"
+  | _ => "pending"
+
+/-- request log of every task: the index of the server contacted, read off the phases visited -/
+def reqIndex (req : Req) (ph : Phase Toy.model) : Option Nat :=
+  match ph with
+  | .awaitStatus _ rest => some (req.urls.length - rest.length - 1)
+  | _ => none
+
+def isDropped (ph : Phase Toy.model) : Bool :=
+  match ph with
+  | .dropped => true
+  | _ => false
+
+/-- index of the server the call is talking to -/
+def curIndex (req : Req) (ph : Phase Toy.model) : Option Nat :=
+  match ph with
+  | .awaitStatus _ rest => some (req.urls.length - rest.length - 1)
+  | .streaming _ rest _ _ _ _ => some (req.urls.length - rest.length - 1)
+  | _ => none
+
+/-- deliver a (possibly tagged) event -/
+def deliver (w : World Toy.model) (i : Nat) (tag : Option Nat) (e : Ev) : World Toy.model :=
+  match tag with
+  | none => w.step i e
+  | some k =>
+    match w.tasks[i]? with
+    | none => w
+    | some (req, ph) => if curIndex req ph == some k then w.step i e else w
+
+def runTagged (w : World Toy.model) : List (Nat × Option Nat × Ev) → World Toy.model
+  | [] => w
+  | (i, tag, e) :: es => runTagged (deliver w i tag e) es
+
+/-- run the world event by event, logging for each task the servers it sends a request to -/
+def runLogged (w : World Toy.model) (logs : List (List Nat)) :
+    List (Nat × Option Nat × Ev) → World Toy.model × List (List Nat)
+  | [] => (w, logs)
+  | (i, tag, e) :: es =>
+    let w' := deliver w i tag e
+    let logs' :=
+      match w.tasks[i]?, w'.tasks[i]? with
+      | some (_, before), some (req, after) =>
+        -- a new request is sent whenever the step enters `awaitStatus` (from any other phase, or
+        -- from `awaitStatus` of the previous server)
+        let entered :=
+          match reqIndex req after with
+          | none => none
+          | some k => if reqIndex req before == some k then none else some k
+        match entered with
+        | none => logs
+        | some k => logs.modify i (· ++ [k])
+      | _, _ => logs
+    runLogged w' logs' es
+
+def secondLookup (c : Cache) (p : Path) : String :=
+  let r := step (P := Toy.model) c ⟨p, none, []⟩ .start .lookup
+  renderPhase r.2
+
+def dropsClean (w0 : World Toy.model) (p : Path) (evs : List (Nat × Option Nat × Ev)) : Bool :=
+  (List.range (evs.length + 1)).all fun k =>
+    let wk := runTagged w0 (evs.take k)
+    match wk.tasks[0]? with
+    | none => false
+    | some (_, ph) =>
+      match ph with
+      | .done _ => true            -- already complete: a later drop is not a drop of the future
+      | .dropped => true
+      | _ =>
+        let wd := wk.step 0 .drop
+        wd.liveTemps.isEmpty && (Node.render (wd.cache p) == Node.render (w0.cache p)) &&
+          ((wd.tasks[0]?).any fun t => isDropped t.2) &&
+          -- and nothing that follows changes that
+          (let we := runTagged wd (evs.drop k)
+           we.liveTemps.isEmpty && Node.render (we.cache p) == Node.render (w0.cache p))
+
+def field (key : String) (s : String) : Option String :=
+  if s.startsWith (key ++ ":") then some ((s.drop (key.length + 1)).toString) else none
+
+def handle (_engine : String) (args : List String) : String :=
+  match args with
+  | fp :: fn :: fl :: fe :: fd :: fts =>
+    let parsed : Option String := do
+      let p ← (field "p" fp) >>= unhex
+      let path := showBytes p
+      let node ← (field "n" fn) >>= parseNode
+      let l ← field "l" fl
+      let localHit ← (if l == "none" then some none else (unhex l).map some)
+      let e ← field "e" fe
+      let evs ← (if e == "-" then some [] else (e.splitOn ",").mapM parseEv)
+      let d ← (field "d" fd) >>= parseBool
+      let urlss ← fts.mapM fun t => (field "t" t) >>= parseUrls
+      if urlss.isEmpty then none else
+      let c0 : Cache := fun q => if q = path then node else none
+      let w0 : World Toy.model :=
+        { cache := c0, tasks := urlss.map fun us => (⟨path, localHit, us⟩, .start) }
+      let (w, logs) := runLogged w0 (urlss.map fun _ => []) evs
+      let res := joinWith ";" (w.tasks.map fun t => renderPhase t.2)
+      let req := joinWith ";" (logs.map fun lg =>
+        if lg.isEmpty then "-" else joinWith "," (lg.map toString))
+      let drops := if d then (if dropsClean w0 path evs then "clean" else "dirty") else "-"
+      pure s!"cache:{Node.render (w.cache path)} tmp:{w.liveTemps.length} r:{res} req:{req} second:{secondLookup w.cache path} drops:{drops}"
+    parsed.getD "bad-op"
+  | _ => "bad-op"
 
 end MdModel.CacheFs
